@@ -2,6 +2,8 @@
 // shrinking of crashing cases, crash/sanitizer death capture, result JSON.
 #include "harness.hpp"
 
+#include <thread>
+
 #include <rapidcheck.h>
 #include <fcntl.h>
 #include <signal.h>
@@ -107,7 +109,19 @@ static bool run_case(const Sub& sub, const Vals& v, Ctx& ctx) {
   g_in_case = 1;
   g_case_hash = case_hash(sub, v);
   alarm(600);  // watchdog: a single case takes milliseconds to a few seconds; a library call that never returns is reported like a crash
-  sub.run(v, ctx);
+  static const bool no_side = getenv("VERIF_NO_SIDE_THREAD") != nullptr;  // sensitivity measurements only
+  if (!no_side && ((g_case_hash >> 17) & 15) == 3) {
+    std::thread th([&]() {
+      g_side_thread = true;
+      sub.run(v, ctx);
+    });
+    th.join();
+    ctx.cls("executed-on-side-thread");
+  } else {
+    sub.run(v, ctx);
+  }
+  for (auto& f : g_case_cleanup) f();
+  g_case_cleanup.clear();
   alarm(0);
   g_in_case = 0;
   if (ctx.discard) {
@@ -137,14 +151,22 @@ static bool parse_replay(const std::string& path, std::string& subname, std::map
   size_t n;
   while ((n = fread(buf, 1, sizeof buf, fp)) > 0) s.append(buf, n);
   fclose(fp);
-  size_t p = s.find("\"sub\":\"");
+  // tolerant of whitespace / indentation (the driver re-writes the case with json.dump(indent=1))
+  size_t p = s.find("\"sub\"");
   if (p == std::string::npos) return false;
-  p += 7;
+  p = s.find(':', p);
+  if (p == std::string::npos) return false;
+  p = s.find('"', p);
+  if (p == std::string::npos) return false;
+  ++p;
   subname = s.substr(p, s.find('"', p) - p);
-  p = s.find("\"fields\":{");
+  p = s.find("\"fields\"");
   if (p == std::string::npos) return false;
-  p += 10;
+  p = s.find('{', p);
+  if (p == std::string::npos) return false;
+  ++p;
   size_t e = s.find('}', p);
+  if (e == std::string::npos) return false;
   std::string body = s.substr(p, e - p);
   size_t i = 0;
   while (i < body.size()) {
